@@ -39,6 +39,8 @@ pub struct GenCfg {
     pub default_modes: String,
     pub password: Option<String>,
     pub overrides: Vec<String>,
+    pub admin_info2: bool,
+    pub admin_email: bool,
 }
 
 static FILE_SEQ: AtomicU64 = AtomicU64::new(0);
@@ -103,10 +105,12 @@ pub fn gen_config(seeds: &[u16], force_valid: bool) -> GenCfg {
             }
         }
     }
-    if s.chance(50) {
+    let admin_info2 = s.chance(50);
+    if admin_info2 {
         t += "admin_info2 = \"second line\"\n";
     }
-    if s.chance(40) {
+    let admin_email = s.chance(40);
+    if admin_email {
         t += "admin_email = \"admin@example.org\"\n";
     }
     let motds = ["Hello, guys!", "motd with : colon and  spaces", "\u{e9}\u{65e5} unicode motd", "x"];
@@ -416,6 +420,8 @@ pub fn gen_config(seeds: &[u16], force_valid: bool) -> GenCfg {
         default_modes,
         password,
         overrides,
+        admin_info2,
+        admin_email,
     }
 }
 
@@ -761,6 +767,21 @@ pub fn check_govern(c: &CfgCase, st: &mut Stats) -> Result<(), Viol> {
     let want: String = want.into_iter().collect();
     if got != want {
         return Err(fail("C20.default_user_modes", "default-modes", format!("221 shows +{} but default_user_modes is +{}", got, want)));
+    }
+    // ADMIN shows exactly the administrative lines the file has (the optional second line and the
+    // e-mail address independently of each other), INFO / VERSION name the server
+    w.send_line(conn, "ADMIN");
+    w.settle();
+    let ls = w.drain(conn);
+    let has = |code: &str| ls.iter().any(|l| l.contains(&format!(" {} ", code)));
+    let admin_ok = has("256")
+        && ls.iter().any(|l| l.contains(" 257 ") && l.ends_with("some admin_info text"))
+        && (has("258") == g.admin_info2)
+        && (has("259") == g.admin_email)
+        && (!g.admin_info2 || ls.iter().any(|l| l.contains(" 258 ") && l.ends_with("second line")))
+        && (!g.admin_email || ls.iter().any(|l| l.contains(" 259 ") && l.ends_with("admin@example.org")));
+    if !admin_ok {
+        return Err(fail("C20.admin_shows_settings", "admin", format!("ADMIN does not show the configured administrative info (admin_info2 configured: {}, admin_email configured: {}): {:?}", g.admin_info2, g.admin_email, ls)));
     }
     // max_joins governs: the (max_joins+1)-th channel is refused with 405
     if let Some(m) = g.max_joins {
